@@ -218,7 +218,7 @@ def run_deepdiff(t1, t2, **kw):
     return r, (snapshot(a) == sa and snapshot(b) == sb)
 
 
-MODEL_HDR = "From DD Require Import Base.PyStr Base.Value Diff.Tree Diff.DiffModel Diff.DiffShow."
+MODEL_HDR = "From DD Require Import Base.PyStr Base.Value Path.PathModel Diff.Tree Diff.DiffModel Diff.TextView Diff.DiffShow."
 
 
 def recorded_opcode_paths(dd, t1):
@@ -260,3 +260,59 @@ def tree_case(t1, t2, zip_, thr, **kw):
         return None, r, unmod
     obs = [tree_obs(r), recorded_opcode_paths(r, t1)]
     return (model_tree_expr(t1, t2, zip_, thr), obs, {"t1": repr(t1), "t2": repr(t2), "zip": zip_, "thr": thr}), r, unmod
+
+
+TYPE_NAMES = {type(None): "NoneType", bool: "bool", int: "int", float: "float", str: "str", bytes: "bytes",
+              list: "list", tuple: "tuple", dict: "dict", set: "set", frozenset: "frozenset"}
+
+
+def _opt(x):
+    return None if x is None else ["Some", x]
+
+
+def text_obs(res):
+    """Canonical observable of a text-view result (mirrors DiffShow.sx_text)."""
+    from harness.core import sx_sorted
+    out = []
+    for p, ch in res.get("type_changes", {}).items():
+        vals = [V.canon(ch["old_value"]), V.canon(ch["new_value"])] if "old_value" in ch else None
+        out.append(["type_changes", p, TYPE_NAMES[ch["old_type"]], TYPE_NAMES[ch["new_type"]], _opt(ch.get("new_path")), _opt(vals)])
+    for p, ch in res.get("values_changed", {}).items():
+        out.append(["values_changed", p, V.canon(ch["old_value"]), V.canon(ch["new_value"]), _opt(ch.get("new_path")), _opt(ch.get("diff"))])
+    for cat in ("dictionary_item_added", "dictionary_item_removed"):
+        items = res.get(cat, {})
+        if isinstance(items, dict):
+            for p, v in items.items():
+                out.append([cat, p, ["Some", V.canon(v)]])
+        else:
+            for p in items:
+                out.append([cat, p, None])
+    for cat in ("iterable_item_added", "iterable_item_removed"):
+        for p, v in res.get(cat, {}).items():
+            out.append([cat, p, V.canon(v)])
+    for p, ch in res.get("iterable_item_moved", {}).items():
+        out.append(["iterable_item_moved", p, ch["new_path"], V.canon(ch["value"])])
+    for cat in ("set_item_added", "set_item_removed"):
+        for s in res.get(cat, []):
+            out.append([cat, s])
+    known = {"type_changes", "values_changed", "dictionary_item_added", "dictionary_item_removed", "iterable_item_added",
+             "iterable_item_removed", "iterable_item_moved", "set_item_added", "set_item_removed"}
+    extra = sorted(set(res.keys()) - known)
+    for k in extra:
+        out.append(["UNEXPECTED-CATEGORY", k])
+    return sx_sorted(out)
+
+
+def model_text_expr(t1, t2, zip_, thr, verbose, ignore_private=True, skip="no_paths", excl="no_paths"):
+    return "sx_text (text_view %d (fst (run_diff hatom_simple (tbl_udiff %s) (tbl_ops %s) %s %s %s %s %s)))" % (
+        verbose, coq_udiff_table(udiff_table(t1, t2)), coq_ops_table(opcode_table(t1, t2)), skip, excl,
+        coq_cfg(zip_, thr, ignore_private), V.to_coq(t1), V.to_coq(t2))
+
+
+def text_case(t1, t2, zip_, thr, verbose, ignore_private=True, **kw):
+    r, unmod = run_deepdiff(t1, t2, zip_ordered_iterables=zip_, threshold_to_diff_deeper=thr, verbose_level=verbose,
+                            ignore_private_variables=ignore_private, **kw)
+    if isinstance(r, Exception):
+        return None, r, unmod
+    return (model_text_expr(t1, t2, zip_, thr, verbose, ignore_private), text_obs(r),
+            {"t1": repr(t1), "t2": repr(t2), "zip": zip_, "thr": thr, "verbose": verbose, "view": "text"}), r, unmod
